@@ -60,3 +60,14 @@ impl Prop for C01 {
         })]
     }
 }
+
+/// fz_history: fuzzer input -> sequential case -> C01 oracle (rules C01 owns only)
+pub fn fuzz_history(data: &[u8]) -> Option<crate::engine::Violation> {
+    let raw = crate::gen::RawCase::from_bytes(data);
+    let case = crate::gen::decode_seq(&raw, &Profile::default()).case;
+    let run = crate::engine::run_seq(&case, &cfg());
+    if run.inconclusive.is_some() {
+        return None;
+    }
+    run.violation.filter(|v| matches!(v.rule, Rule::ReadLen | Rule::ReadData | Rule::Frame | Rule::MappingKind))
+}
